@@ -9,6 +9,7 @@ import TmVerif.Codec.UniqueName
 import TmVerif.Codec.Rule
 import TmVerif.Codec.Event
 import TmVerif.Codec.Payload
+import TmVerif.Codec.LdapObjects
 
 namespace TmVerif.Codec
 open TmVerif
@@ -348,5 +349,137 @@ example : jsonLoads (jsonDumps (.obj [("b".toList, .arr [.int (-1), .bool true, 
       ("a".toList, .obj [])])) =
     some (.obj [("a".toList, .obj []), ("b".toList, .arr [.int (-1), .bool true, .null, .str "x\"y\n".toList])]) := by
   rfl
+
+/-! ## 5. admin objects as LDAP entries -/
+
+/-- The `_schema` tables extracted from `Application`, `CellAllocation` and `Partition` (main and
+    keyed sub-schemas) all have pairwise distinct ldap names, pairwise distinct object names and
+    no ';' in an ldap name. -/
+theorem C15_ldap_schemas_wf :
+    SchemaWF ExtCodec.appSchema ∧ SchemaWF ExtCodec.appSvcSchema ∧ SchemaWF ExtCodec.appSvcRestartSchema ∧
+    SchemaWF ExtCodec.appEndpointSchema ∧ SchemaWF ExtCodec.appEnvironSchema ∧ SchemaWF ExtCodec.appAffinitySchema ∧
+    SchemaWF ExtCodec.appVringSchema ∧ SchemaWF ExtCodec.appVringRuleSchema ∧
+    SchemaWF ExtCodec.cellAllocSchema ∧ SchemaWF ExtCodec.cellAllocAssignSchema ∧
+    SchemaWF ExtCodec.partitionSchema ∧ SchemaWF ExtCodec.partitionLimitSchema :=
+  ⟨appSchema_wf, appSvcSchema_wf, appSvcRestartSchema_wf, appEndpointSchema_wf, appEnvironSchema_wf,
+   appAffinitySchema_wf, appVringSchema_wf, appVringRuleSchema_wf, cellAllocSchema_wf,
+   cellAllocAssignSchema_wf, partitionSchema_wf, partitionLimitSchema_wf⟩
+
+/-- **C15 (LDAP, one schema).** For EVERY schema with distinct names and every object whose present
+    fields are well-typed (`ObjWF`: any subset of the fields, `None` anywhere, lists with `None`
+    elements), `_entry_2_dict(_remove_empty(_dict_2_entry(obj))) = normalise(obj)`: list fields
+    always present (`[]` by default, `None` elements dropped), other fields present iff not `None`,
+    every value unchanged.  Nothing raises. -/
+theorem C15_ldap_generic (sch : Schema) (hwf : SchemaWF sch) (obj : KVs) (ho : ObjWF sch obj) :
+    ∃ e, dict2entry sch none obj = some e ∧ entry2dict sch (removeEmpty e) = some (normalise sch obj) :=
+  flat_roundtrip sch hwf obj ho
+
+/-- **C15 (LDAP, one schema: injective on normal forms).** -/
+theorem C15_ldap_generic_inj (sch : Schema) (hwf : SchemaWF sch) (o₁ o₂ : KVs) (h₁ : ObjWF sch o₁)
+    (h₂ : ObjWF sch o₂) (h : dict2entry sch none o₁ = dict2entry sch none o₂) :
+    normalise sch o₁ = normalise sch o₂ := by
+  obtain ⟨e₁, he₁, r₁⟩ := flat_roundtrip sch hwf o₁ h₁
+  obtain ⟨e₂, he₂, r₂⟩ := flat_roundtrip sch hwf o₂ h₂
+  rw [he₁, he₂] at h
+  cases h
+  rw [r₁] at r₂
+  exact Option.some.inj r₂
+
+/-- **C15 (LDAP, keyed lists with option-indexed attributes).** A keyed list of any length written
+    by `_to_obj_list` next to arbitrary other attributes (`A`, `C`, none with an option of this
+    prefix), stored, and read back by `_group_entry_by_opt` + `_grouped_to_list_of_dict` is the list
+    of the rows' normal forms (in key order, then sorted by items): no row lost, merged or altered.
+    Uses: hexadecimal option indices are injective. -/
+theorem C15_ldap_keyed (sch : Schema) (hwf : SchemaWF sch) (key pfx : Str) (hk : KeyRow sch key)
+    (hp : ';' ∉ pfx) (objs : List JVal) (rows : List KVs) (hs : sortByKey key objs = some rows)
+    (hr : ∀ row ∈ rows, RowOK sch key row)
+    (A C : Entry) (hA : NoPfx (pfxOf pfx) A) (hC : NoPfx (pfxOf pfx) C)
+    (hAok : optKeysOk (pfxOf pfx) A = true) (hCok : optKeysOk (pfxOf pfx) C = true) :
+    ∃ E, toObjList objs key pfx sch = some E ∧
+      groupedToList sch (pfxOf pfx) (removeEmpty A ++ removeEmpty E ++ removeEmpty C)
+        = some (sortRows (rows.map (normalise sch))) := by
+  obtain ⟨E, h1, h2, _⟩ := keyed_roundtrip sch hwf key pfx hk hp objs rows hs hr A C hA hC hAok hCok
+  exact ⟨E, h1, h2⟩
+
+/-- **C15 (CellAllocation round trip).** `from_entry(_remove_empty(to_entry(obj)))` is the normal
+    form of `obj` (flat fields normalised, assignments normalised and sorted, cpu/memory/disk/
+    partition defaults filled, `max_utilization` as a float) for every cell allocation with
+    well-typed fields and assignments that carry their `pattern`. -/
+theorem C15_ldap_cellalloc_roundtrip (obj : KVs) (ho : ObjWF ExtCodec.cellAllocSchema obj)
+    (objs : List JVal) (hl : getList kAssignments obj = some objs)
+    (rows : List KVs) (hs : sortByKey (S "pattern") objs = some rows)
+    (hr : ∀ row ∈ rows, RowOK ExtCodec.cellAllocAssignSchema (S "pattern") row) :
+    ∃ E, cellAllocToEntry obj = some E ∧
+      cellAllocFromEntry (removeEmpty E) = normaliseCellAlloc obj rows :=
+  cellAlloc_roundtrip obj ho objs hl rows hs hr
+
+/-- **C15 (Partition round trip).** -/
+theorem C15_ldap_partition_roundtrip (obj : KVs) (ho : ObjWF ExtCodec.partitionSchema obj)
+    (objs : List JVal) (hl : getList kLimits obj = some objs)
+    (rows : List KVs) (hs : sortByKey (S "trait") objs = some rows)
+    (hr : ∀ row ∈ rows, RowOK ExtCodec.partitionLimitSchema (S "trait") row) :
+    ∃ E, partitionToEntry obj = some E ∧
+      partitionFromEntry (removeEmpty E) = some (normalisePartition obj rows) :=
+  partition_roundtrip obj ho objs hl rows hs hr
+
+/-- **C15 (Partition: injective on normal forms).** Partitions with different normal forms never
+    share an entry. -/
+theorem C15_ldap_partition_inj (o₁ o₂ : KVs)
+    (h₁ : ObjWF ExtCodec.partitionSchema o₁) (h₂ : ObjWF ExtCodec.partitionSchema o₂)
+    (l₁ l₂ : List JVal) (g₁ : getList kLimits o₁ = some l₁) (g₂ : getList kLimits o₂ = some l₂)
+    (r₁ r₂ : List KVs) (s₁ : sortByKey (S "trait") l₁ = some r₁) (s₂ : sortByKey (S "trait") l₂ = some r₂)
+    (w₁ : ∀ row ∈ r₁, RowOK ExtCodec.partitionLimitSchema (S "trait") row)
+    (w₂ : ∀ row ∈ r₂, RowOK ExtCodec.partitionLimitSchema (S "trait") row)
+    (h : partitionToEntry o₁ = partitionToEntry o₂) :
+    normalisePartition o₁ r₁ = normalisePartition o₂ r₂ := by
+  obtain ⟨E₁, e₁, d₁⟩ := partition_roundtrip o₁ h₁ l₁ g₁ r₁ s₁ w₁
+  obtain ⟨E₂, e₂, d₂⟩ := partition_roundtrip o₂ h₂ l₂ g₂ r₂ s₂ w₂
+  rw [e₁, e₂] at h
+  cases h
+  rw [d₁] at d₂
+  exact Option.some.inj d₂
+
+/-- **C15 (CellAllocation: injective on normal forms).** -/
+theorem C15_ldap_cellalloc_inj (o₁ o₂ : KVs)
+    (h₁ : ObjWF ExtCodec.cellAllocSchema o₁) (h₂ : ObjWF ExtCodec.cellAllocSchema o₂)
+    (l₁ l₂ : List JVal) (g₁ : getList kAssignments o₁ = some l₁) (g₂ : getList kAssignments o₂ = some l₂)
+    (r₁ r₂ : List KVs) (s₁ : sortByKey (S "pattern") l₁ = some r₁) (s₂ : sortByKey (S "pattern") l₂ = some r₂)
+    (w₁ : ∀ row ∈ r₁, RowOK ExtCodec.cellAllocAssignSchema (S "pattern") row)
+    (w₂ : ∀ row ∈ r₂, RowOK ExtCodec.cellAllocAssignSchema (S "pattern") row)
+    (h : cellAllocToEntry o₁ = cellAllocToEntry o₂) :
+    normaliseCellAlloc o₁ r₁ = normaliseCellAlloc o₂ r₂ := by
+  obtain ⟨E₁, e₁, d₁⟩ := cellAlloc_roundtrip o₁ h₁ l₁ g₁ r₁ s₁ w₁
+  obtain ⟨E₂, e₂, d₂⟩ := cellAlloc_roundtrip o₂ h₂ l₂ g₂ r₂ s₂ w₂
+  rw [e₁, e₂] at h
+  cases h
+  rw [d₁] at d₂
+  exact d₂
+
+/-! non-vacuity and the Application witness (objects are compared through their canonical JSON text) -/
+
+def showObj (o : Option KVs) : Option Str := o.map (fun kvs => jsonDumps (.obj kvs))
+
+def demoPartition : KVs :=
+  [(S "_id", .str (S "p1")), (S "cpu", .null), (S "systems", .arr [.int 3032, .null, .int 7]),
+   (S "down-threshold", .int 5),
+   (S "limits", .arr [.obj [(S "trait", .str (S "b")), (S "cpu", .str (S "10%"))],
+                     .obj [(S "trait", .str (S "a")), (S "memory", .null)]])]
+
+example : showObj ((partitionToEntry demoPartition).bind (fun e => partitionFromEntry (removeEmpty e))) =
+    some "{\"_id\": \"p1\", \"cpu\": \"0%\", \"disk\": \"0G\", \"down-threshold\": 5, \"limits\": [{\"cpu\": \"10%\", \"trait\": \"b\"}, {\"trait\": \"a\"}], \"memory\": \"0G\", \"systems\": [3032, 7]}".toList := by
+  decide +kernel
+
+def demoApp : KVs := [(S "_id", .str (S "proid.app")), (S "cpu", .str (S "10%"))]
+
+/-- **Witness of the known finding** (ephemeral ports): an application without ephemeral ports reads
+    back with `ephemeral_ports = {}`; writing THAT object and reading it again gives
+    `{"tcp": 0, "udp": 0}` — `decode ∘ encode` is not the identity on the decoder's own output. -/
+theorem C15_ldap_app_ephemeral_ports_witness :
+    showObj ((appToEntry demoApp).bind (fun e => appFromEntry (removeEmpty e))) =
+      some "{\"_id\": \"proid.app\", \"affinity_limits\": {}, \"args\": [], \"cpu\": \"10%\", \"endpoints\": [], \"environ\": [], \"ephemeral_ports\": {}, \"features\": [], \"keytabs\": [], \"passthrough\": [], \"services\": [], \"tickets\": [], \"traits\": []}".toList ∧
+    showObj (((appToEntry demoApp).bind (fun e => appFromEntry (removeEmpty e))).bind
+        (fun o => (appToEntry o).bind (fun e => appFromEntry (removeEmpty e)))) =
+      some "{\"_id\": \"proid.app\", \"affinity_limits\": {}, \"args\": [], \"cpu\": \"10%\", \"endpoints\": [], \"environ\": [], \"ephemeral_ports\": {\"tcp\": 0, \"udp\": 0}, \"features\": [], \"keytabs\": [], \"passthrough\": [], \"services\": [], \"tickets\": [], \"traits\": []}".toList := by
+  decide +kernel
 
 end TmVerif.Codec
